@@ -23,9 +23,14 @@ static _Bool ci_ends_in_number(const char *h, size_t n) {      /* URL Standard 3
 void harness(void) {
   HAVOC_BUFS;
   ND_SV(input);
+#ifdef FAST_URL
+  struct url out = G_url_default;
+  _Bool ok = try_parse_simple_absolute_url(input, &out);
+#else
   struct url_aggregator out = G_url_aggregator_default;
   for (size_t i = 0; i <= STR_CAP; i++) out.buffer.d[i] = 0;
   _Bool ok = try_parse_simple_absolute_agg(input, &out);
+#endif
   if (ok) {
     size_t n = input.n;
     size_t pe = (n >= 5 && input.p[4] == ':') ? 5 : 6;
@@ -57,6 +62,15 @@ void harness(void) {
       for (size_t i = q + 1; i < qe; i++) __CPROVER_assert(!SPEC_IN_SPECIAL_QUERY(input.p[i]), "postcondition: query bytes need no percent-encoding (special-query set)"); }
     for (size_t i = qe + 1; i < n; i++) __CPROVER_assert(!SPEC_IN_FRAGMENT(input.p[i]), "postcondition: fragment bytes need no percent-encoding");
     /* the object */
+#ifdef FAST_URL
+    /* ada::url: the same URL, field by field (twin of the aggregator's layout below) */
+    __CPROVER_assert(out.host.has && out.host.v.n == he - hs && (g_k >= he - hs || out.host.v.d[g_k] == SPEC_TO_LOWER(input.p[hs + g_k])), "postcondition: host field = host lower-cased");
+    __CPROVER_assert(ps == pend ? (out.path.n == 1 && out.path.d[0] == '/') : (out.path.n == pend - ps && (g_k >= pend - ps || out.path.d[g_k] == input.p[ps + g_k])), "postcondition: path field = path, or '/' for an empty path");
+    __CPROVER_assert(out.query.has == (q < n && input.p[q] == '?') && (!out.query.has || (out.query.v.n == qe - q - 1 && (g_k >= qe - q - 1 || out.query.v.d[g_k] == input.p[q + 1 + g_k]))), "postcondition: query field");
+    __CPROVER_assert(out.hash.has == (qe < n) && (!out.hash.has || (out.hash.v.n == n - qe - 1 && (g_k >= n - qe - 1 || out.hash.v.d[g_k] == input.p[qe + 1 + g_k]))), "postcondition: fragment field");
+    __CPROVER_assert(out.username.n == 0 && out.password.n == 0 && !out.port.has, "postcondition: no credentials, no port");
+    __CPROVER_assert(out.base.is_valid && !out.base.has_opaque_path && out.base.host_type == 0 && out.base.type == (pe == 5 ? E_ada_scheme_type_HTTP : E_ada_scheme_type_HTTPS), "postcondition: record flags");
+#else
     size_t ins = (ps == pend) ? 1 : 0;        /* "/" inserted for an empty path */
     __CPROVER_assert(out.buffer.n == n + ins, "postcondition: href length = input length (+1 for the inserted '/')");
     __CPROVER_assert(g_k >= n || (g_k < hs ? out.buffer.d[g_k] == input.p[g_k] : g_k < he ? out.buffer.d[g_k] == SPEC_TO_LOWER(input.p[g_k]) : out.buffer.d[g_k + ins] == input.p[g_k]),
@@ -67,6 +81,7 @@ void harness(void) {
     __CPROVER_assert(out.components.search_start == (q < n && input.p[q] == '?' ? q + ins : OMITTED) && out.components.hash_start == (qe < n ? qe + ins : OMITTED), "postcondition: offsets of query and fragment");
     __CPROVER_assert(out.base.is_valid && !out.base.has_opaque_path && out.base.host_type == 0 && out.base.type == (pe == 5 ? E_ada_scheme_type_HTTP : E_ada_scheme_type_HTTPS), "postcondition: record flags");
     __CPROVER_assert(agg_wf(&out) && agg_validate(&out), "postcondition: the object is well formed and validate() accepts it");
+#endif
   }
   CANARY_POINT;
 }
